@@ -66,7 +66,8 @@ def _add(pid, method="", text="", note=""):
     CLAIMED[pid] = (cat, tech + method, txt + text, nt + note, ref)
 
 _SP = "; single-pass dataflow (E10) over every function reachable from the property's routines: a parameter declared Iterable is traversed at most once before it is materialised"
-for _p in ("C01", "C02", "C03", "C04", "C05", "C07", "C08", "C09", "C14", "C15", "C16", "C17", "C18", "C19", "C20"):
+_SP += " -- parameters and local one-shot objects (generators, map / filter / zip / chain results) alike, a traversal inside a loop counting once per round"
+for _p in sorted(CLAIMED):
     _add(_p, method=_SP)
 _add("C11", method="; closure of the Fraction branch under its own shortcuts (operator table of __truediv__ with the class invariant 'a canonical fraction's denominator is not One'); agreement of the two orders (ensure_ordering vs Distribution.safe)",
      text=" The quotient the Fraction branch returns is a fixed point of that branch; the ordering the canonicaliser sorts by is the order in which Sum.simplify rebuilds marginals.")
@@ -79,3 +80,15 @@ _add("C18", text=" Lemma 24 as used by make-cg, equivalence under the parallel-w
 _add("C20", text=" disorient() is the flat graph over ALL nodes (C14's comparison, run here).")
 _add("C05", text=" The problem handed to TRSO keeps each domain's own data (R6.5), and domain activation moves every probability term -- children and conditioning set -- into the experimental world (R6.5 whole-term-moves; a genuine defect found by this clause's reference was repaired).")
 _add("C06", text=" Domain activation is compared with its definition (R6.5 whole-term-moves).")
+
+# ---- round 4 ----------------------------------------------------------------------------------------------------------------------------
+_DEPS_NOTE = " The rules of the properties this one is stated over (graph primitives C14, DSL constructors C13, and whatever else check.py's DEPS table names, transitively) are run in BOTH tiers; a refutation there is a violation here unless it is a recorded finding of that property."
+for _p in sorted(CLAIMED):
+    _add(_p, note=_DEPS_NOTE)
+_add("C13", method="; ordering-key discipline (E11): every key function and explicit __lt__ the DSL sorts by is evaluated symbolically, one term per return path -- no set-typed component, one scalar type per position on every path, compared fields read as they are (no int() of name pieces, regular expression, lower/strip/split)",
+     text=" Sort keys of the DSL are total and injective on what equality compares (R13.6); product factors are compared with multiplicity.")
+_add("C18", text=" The key merge_pw keeps 'the lower of two copies' by is the documented one (R18.5).")
+_add("C12", method="; transparent-reader check (the reader's post-processing of the evaluated text is the identity on expressions); field-container check (a field equality compares and the printers sort is held in an order-free container)",
+     text=" parse_y0 returns what the text denotes, unsimplified (R12.10); fields that equality compares order-free are stored order-free (R12.11).")
+_add("C06", text=" Probability.intervene moves the whole distribution -- children and conditioning set (R6.4 reference row).")
+_add("C14", text=" _to_interventions keeps every (name, star) pair (keyed-collapse refutation: a dict keyed by one field of a multi-field class and read back through .values()).")
